@@ -204,6 +204,8 @@ type Cluster struct {
 	Svc   *Svc
 	Nodes []*Node
 	Opts  func(name string, s *litefs.Store)
+	// LeaserFor, if set, supplies the leaser of a node instead of the simulated TTL service.
+	LeaserFor func(name, url string) (litefs.Leaser, error)
 }
 
 func New(dir string, ttl time.Duration) *Cluster {
@@ -236,6 +238,14 @@ func (c *Cluster) Start(name string, candidate bool) (*Node, error) {
 	}
 	n.Leaser = &Leaser{svc: c.Svc, Host: name, URL: srv.URL()}
 	s.Leaser = n.Leaser
+	if c.LeaserFor != nil {
+		l, err := c.LeaserFor(name, srv.URL())
+		if err != nil {
+			_ = srv.Close()
+			return nil, err
+		}
+		s.Leaser = l
+	}
 	n.Store, n.Server = s, srv
 	var err error
 	if p := lfs.TryErr(func() { err = s.Open() }); p != "" {
